@@ -417,22 +417,32 @@ class J1939_22:
                     elif buf['state'] == self.SendBufferState.SENDING_RTS_CTS:
                         while buf['next_packet_to_send'] < buf['num_segments']:
                             package = buf['next_packet_to_send']
-                            self.__send_tp_dt(buf['src_address'], buf['dest_address'], buf['session'], package+1, buf['data'][package])
 
+                            # modify the snd_buffer state in anticipation
+                            # of the messages we are about to transmit
+                            # (the answer may be processed before the send call returns)
                             buf['next_packet_to_send'] += 1
-                            # send end of message status
-                            if (package+1) == buf['num_segments']:
-                                self.__send_tp_eom_status(buf['src_address'], buf['dest_address'], buf['session'], buf['message_size'], buf['num_segments'], buf['pgn'])
+                            last_segment = (package+1) == buf['num_segments']
+                            should_break = False
+                            if last_segment:
                                 buf['deadline'] = time.time() + self.Timeout.T5
                                 buf['state'] = self.SendBufferState.WAITING_EOM_ACK
-                                break
+                                should_break = True
                             elif package == buf['next_wait_on_cts']:
                                 # wait on next cts
                                 buf['state'] = self.SendBufferState.WAITING_CTS
                                 buf['deadline'] = time.time() + self.Timeout.T3
-                                break
+                                should_break = True
                             elif self._minimum_tp_rts_cts_dt_interval != None:
                                 buf['deadline'] = time.time() + self._minimum_tp_rts_cts_dt_interval
+                                should_break = True
+
+                            # state is ready for recv - now send the segment
+                            self.__send_tp_dt(buf['src_address'], buf['dest_address'], buf['session'], package+1, buf['data'][package])
+                            if last_segment:
+                                # send end of message status
+                                self.__send_tp_eom_status(buf['src_address'], buf['dest_address'], buf['session'], buf['message_size'], buf['num_segments'], buf['pgn'])
+                            if should_break:
                                 break
 
                         # recalc next wakeup
